@@ -395,5 +395,5 @@ func normalizedRoleFuncs(c *an.Ctx) {
 				"funcNames assigned a value that is not a StringsDedupAndSort result")
 		}
 	}
-	c.RequireMin("assignments of roleFuncs.funcNames", n, 3)
+	c.RequireMin("assignments of roleFuncs.funcNames", n, 1)
 }
